@@ -84,6 +84,9 @@ def run(ck):
     ck.rule("R3", "each operator reaches the C operation of its reference meaning", floor=22)
     ck.rule("R4", "signed division on 32/64-bit operands excludes INT_MIN / -1", floor=4)
     ck.rule("R5", "native-only helpers are guarded by the operand width", floor=8)
+    ck.rule("TC", "the translation memo table is private to the translator object, keyed by the expression itself, and filled by the class's own handler", floor=4)
+    from rules._transcache import translator_cache_rules
+    translator_cache_rules(ck, "TC")
 
     cpy = ck.repo.mod(CPY)
     cg = ck.repo.mod(CG)
